@@ -521,10 +521,21 @@ def cargo_env(hooks=True):
     return env
 
 
-def build_harness(run, release=False):
+def render_harness_manifest():
+    """harness/Cargo.toml is rendered from Cargo.toml.in with the repository path (VERIF_REPO,
+    default /repo), so a private copy of the repository can be checked without touching /repo."""
+    tmpl = open(os.path.join(HARNESS_DIR, "Cargo.toml.in")).read().replace("@REPO@", REPO.rstrip("/"))
+    p = os.path.join(HARNESS_DIR, "Cargo.toml")
+    if not os.path.exists(p) or open(p).read() != tmpl:
+        with open(p, "w") as f:
+            f.write(tmpl)
     lock = os.path.join(HARNESS_DIR, "Cargo.lock")
     if not os.path.exists(lock):
         shutil.copy(os.path.join(REPO, "Cargo.lock"), lock)
+
+
+def build_harness(run, release=False):
+    render_harness_manifest()
     cmd = ["cargo", "build", "--offline", "--quiet"]
     if release:
         cmd.append("--release")
